@@ -7,7 +7,7 @@
    m = build mode; theorems hold for all four combinations. *)
 From Coq Require Import NArith List Bool.
 Require Import SDS.Model.Mach SDS.Model.Bits SDS.Model.Raw SDS.Model.IntVec SDS.Model.BitVec SDS.Model.Ser.
-Require Import SDS.gen.Consts SDS.Spec.Stream SDS.Proofs.SerProof SDS.Proofs.SerTypes SDS.Proofs.SerSupports SDS.Proofs.SerMain.
+Require Import SDS.gen.Consts SDS.Spec.Stream SDS.Proofs.SerProof SDS.Proofs.SerTypes SDS.Proofs.SerSupports SDS.Proofs.SerRank SDS.Proofs.SerMain.
 Import ListNotations.
 Open Scope list_scope.
 Open Scope N_scope.
@@ -28,13 +28,22 @@ Definition C19_supports_statement : Prop :=
                 bv_supports b' = ops_flags ops s /\ same_core b' bf /\
                 (ops_flags ops s = 7 -> b' = bf)).
 
-(* Proved under one hypothesis: the fully enabled vector passes the loader's sanity checks (bv_ok bf: supports
-   with the block counts BitVector::load insists on). For the rank support and for well-formedness of the raw
-   data this follows from the builder; for the two select supports it is the superblock-count invariant of
-   SelectSupport::new, which belongs to the C01 select proofs and is not re-proved here. The correspondence run
-   exercises it on every generated vector (every load of a built vector succeeds). *)
+(* Proved under ONE extra hypothesis, select_supports_ok bf: the two select supports built by SelectSupport::new
+   pass the loader's checks (three well-formed integer vectors, superblocks = long + short, and the superblock
+   count BitVector::load insists on). That is the superblock-count invariant of the select builder, which belongs
+   to the C01 select proofs and is not re-proved here; the correspondence run exercises it on every generated
+   vector (every load of a built vector succeeds). The rank half IS proved from the builder (rank_new_ok). *)
+Check (eq_refl : select_supports_ok = fun bf =>
+  match bv_select bf with None => True
+  | Some v => ss_ok v /\ ss_superblocks v = ceil_div (bv_ones bf) select_SUPERBLOCK_SIZE end /\
+  match bv_select_zero bf with None => True
+  | Some v => ss_ok v /\ ss_superblocks v = ceil_div (rlen (bv_data bf) - bv_ones bf) select_SUPERBLOCK_SIZE end).
+
 Theorem C19_supports_partial :
-  forall sp m b0 bf, no_supports b0 -> bv_enable_all sp m b0 = Ok bf -> bv_ok bf ->
+  forall sp m b0 bf, no_supports b0 -> raw_ok (bv_data b0) -> bv_ones b0 <= rlen (bv_data b0) ->
+  rlen (bv_data b0) + select_SUPERBLOCK_SIZE < 2 ^ 64 ->
+  bv_enable_all sp m b0 = Ok bf ->
+  select_supports_ok bf ->
   forall s, s < 8 ->
   (forall rest, c_dec (bv_codec m) (c_enc (bv_codec m) (bv_restrict s bf) ++ rest) = IoOk (bv_restrict s bf, rest)) /\
   bv_supports (bv_restrict s bf) = s /\
@@ -43,11 +52,19 @@ Theorem C19_supports_partial :
                 bv_supports b' = ops_flags ops s /\ same_core b' bf /\
                 (ops_flags ops s = 7 -> b' = bf)).
 Proof.
-  intros sp m b0 bf H0 E W s Hs. split; [|split].
+  intros sp m b0 bf H0 Hraw Ho Hl E Hsel s Hs.
+  pose proof (built_bv_ok sp m b0 bf H0 Hraw Ho Hl E Hsel) as W.
+  split; [|split].
   - intros rest. exact (proj1 (supports_roundtrip sp m b0 bf s rest H0 E W Hs)).
   - exact (proj2 (supports_roundtrip sp m b0 bf s [] H0 E W Hs)).
   - intros ops Hops. exact (supports_rebuild sp m b0 bf s ops H0 E Hs Hops).
 Qed.
+(* the rank support the builder produces always passes the loader's checks *)
+Theorem C19_rank_support_loadable :
+  forall b rs, raw_ok (bv_data b) -> rlen (bv_data b) + 512 < 2 ^ 64 -> rank_new b = Ok rs ->
+  rs_ok rs /\ rs_blocks rs = ceil_div (rlen (bv_data b)) rank_BLOCK_SIZE.
+Proof. exact rank_new_ok. Qed.
+Print Assumptions C19_rank_support_loadable.
 Print Assumptions C19_supports_partial.
 
 (* the rebuilding half needs no hypothesis at all *)
@@ -132,6 +149,19 @@ Definition ex_b0 : bitvec := bv_from_raw (mkraw 700 ex_words).
 Definition ex_bf : bitvec := match bv_enable_all Pdep Debug ex_b0 with Ok b => b | _ => ex_b0 end.
 Example ex_built : no_supports ex_b0 /\ bv_enable_all Pdep Debug ex_b0 = Ok ex_bf /\ bv_supports ex_bf = 7.
 Proof. split; [repeat split|]. split; vm_compute; reflexivity. Qed.
+Example ex_hyps : raw_ok (bv_data ex_b0) /\ bv_ones ex_b0 <= rlen (bv_data ex_b0) /\ select_supports_ok ex_bf.
+Proof.
+  split; [|split].
+  - unfold raw_ok. cbn [ex_b0 bv_from_raw bv_data rlen rdata]. split; [vm_compute; reflexivity|].
+    split; [vm_compute; reflexivity|]. unfold ex_words. repeat (constructor; [vm_compute; reflexivity|]). constructor.
+  - vm_compute. intros X. discriminate X.
+  - let v := eval vm_compute in ex_bf in change ex_bf with v.
+    unfold select_supports_ok, ss_ok, iv_ok, raw_ok. cbn [bv_ones bv_data bv_rank bv_select bv_select_zero rlen rdata].
+    repeat match goal with
+           | |- _ /\ _ => split
+           | |- Forall _ _ => constructor
+           end; vm_compute; first [reflexivity | discriminate | (let X := fresh in intro X; discriminate X)].
+Qed.
 (* written with {rank, select_zero}; enabling select, then rank again, gives the fully enabled vector *)
 Example ex_rebuild : bv_enable_ops Pdep Debug [1; 0] (bv_restrict 5 ex_bf) = Ok ex_bf.
 Proof. vm_compute. reflexivity. Qed.
